@@ -1,6 +1,7 @@
 package main
 
 import (
+	"context"
 	"fmt"
 	"time"
 
@@ -762,4 +763,135 @@ func c18ShortOutage(x *X) {
 
 func init() {
 	register(&Scenario{Prop: "C18", Name: "c18/short-outage", Quick: []Bound{{0, 0}, {1, 0}}, Thorough: []Bound{{2, 0}}, Body: c18ShortOutage, MaxSteps: 100000, BudgetQ: 15})
+}
+
+// the whole stack (Client, Transport, Conn, fake network, real servers): targets that served calls go away,
+// calls observe the broken connections, nobody is alive any more and callers wait; Client.Close then
+// releases every waiter with ErrShutdown, makes later calls fail at once and leaves nothing behind -
+// whatever state the Transport's connections are in (healthy, broken and noticed, broken and unnoticed).
+func c18RealClose(x *X) {
+	ntargets := 1 + x.Choose(2)
+	noticed := x.Choose(3) // after the outage and before Close: nobody calls / one call / calls until one has to wait
+	forms := pickForms(x, 2)
+	n := newNet()
+	so := srvOpts{bufSize: 64}
+	addrs := []string{"a", "b"}[:ntargets]
+	var srvs []*rpc.Server
+	var worlds []*World
+	for _, a := range addrs {
+		w := newWorld()
+		s, _ := startListener(n, w, a, so, false)
+		srvs, worlds = append(srvs, s), append(worlds, w)
+	}
+	vs.Quiesce()
+	c := rpc.NewClient(so.options(n, 64), addrs...)
+	c.DialTimeout = 10 * time.Second
+	vs.Quiesce()
+	vt.Advance(cTick)
+	vs.Quiesce()
+	for i := 0; i < 2*ntargets; i++ {
+		u := newUcall(byte(1+i), 0, 20, formCall)
+		if err := c.Call(u.method, &u.args, &u.reply); err != nil || !eqBytes(u.reply, u.want()) {
+			x.Fail("C18/setup-call-failed", "call %d with %d live targets: %v", i, ntargets, err)
+		}
+	}
+	for _, s := range srvs {
+		s.Close()
+	}
+	vs.Quiesce()
+	// calls after the outage: each fails (the broken connection, then the refused re-dial) or - once the Client
+	// has seen every target refuse - waits for a live target
+	type wt struct {
+		done bool
+		err  error
+		form int
+	}
+	var ws []*wt
+	var seen []string
+	for i := 0; i < []int{0, 1, 4 * ntargets}[noticed] && len(ws) == 0; i++ {
+		u := newUcall(byte(0x20+i), 0, 20, formCall)
+		w := &wt{form: cfCall}
+		vs.GoNamed(fmt.Sprintf("after-outage%d", i), func() { w.err = c.Call(u.method, &u.args, &u.reply); w.done = true })
+		vs.Quiesce()
+		if w.done {
+			seen = append(seen, errStr(w.err))
+			if w.err == nil {
+				x.Fail("C18/call-succeeded-without-server", "a call succeeded after every server was closed")
+			}
+		} else {
+			seen = append(seen, "waits")
+			ws = append(ws, w)
+		}
+	}
+	if len(ws) > 0 {
+		for k := 0; k < 3; k++ {
+			vt.Advance(cTick)
+			vs.Quiesce()
+		}
+		for i, f := range forms {
+			i, f := i, f
+			w := &wt{form: f}
+			ws = append(ws, w)
+			vs.GoNamed(fmt.Sprintf("waiter%d", i), func() {
+				u := newUcall(byte(0x40+i), 0, 20, formCall)
+				switch f {
+				case cfGo:
+					done := make(chan *rpc.Call, 1)
+					call := c.Go(u.method, &u.args, &u.reply, done)
+					recvCall(done)
+					w.err = call.Error
+				case cfPing:
+					w.err = c.Ping()
+				case cfCallCtx:
+					w.err = c.CallWithContext(context.Background(), u.method, &u.args, &u.reply)
+				default:
+					w.err = c.Call(u.method, &u.args, &u.reply)
+				}
+				w.done = true
+			})
+		}
+		vs.Quiesce()
+		for i, w := range ws {
+			if w.done {
+				x.Fail("C18/call-did-not-wait", "no target is alive (all servers closed, every target has refused a call: %v) but call %d returned %v instead of waiting", seen, i, w.err)
+			}
+		}
+	}
+	var c1 error
+	closed := false
+	vs.GoNamed("closer", func() { c1 = c.Close(); closed = true })
+	vs.Quiesce()
+	what := fmt.Sprintf("%d targets that served calls went away, after the outage %v", ntargets, seen)
+	if !closed {
+		x.Fail("C18/close-hangs", "%s: Client.Close has not returned", what)
+	}
+	for i, w := range ws {
+		if !w.done {
+			x.Fail("C18/waiter-not-released/real-close", "%s: a caller (form %d) waiting for a live target is still waiting after Client.Close returned %v", what, w.form, c1)
+		} else if w.err != rpc.ErrShutdown {
+			x.Fail("C18/waiter-error/real-close", "%s: the waiting caller %d returned %v after Client.Close, want ErrShutdown", what, i, w.err)
+		}
+	}
+	lateDone := false
+	var lateErr error
+	vs.GoNamed("late", func() { lateErr = c.Call("Svc.Echo", nil, nil); lateDone = true })
+	vs.Quiesce()
+	if !lateDone {
+		x.Fail("C18/call-after-close-waits", "%s: a call started after Client.Close (which returned %v) waits instead of failing at once", what, c1)
+	} else if lateErr != rpc.ErrShutdown {
+		x.Fail("C18/call-after-close-error", "%s: a call started after Client.Close returned %v, want ErrShutdown", what, lateErr)
+	}
+	vt.Advance(3 * cTick)
+	vs.Quiesce()
+	for _, t := range blockedThreads(nil) {
+		x.Fail("C18/thread-left-behind", "%s: after Client.Close: %s", what, t)
+	}
+	x.Outcome("n=%d noticed=%d forms=%v seen=%v close=%v", ntargets, noticed, forms, seen, c1)
+	// (let a Client that did not close go: its callers time out)
+	vt.Advance(11 * time.Second)
+	vs.Quiesce()
+}
+
+func init() {
+	register(&Scenario{Prop: "C18", Name: "c18/close-after-outage-whole-stack", Quick: []Bound{{0, 0}, {1, 0}}, Thorough: []Bound{{2, 0}}, Body: c18RealClose, MaxSteps: 400000, BudgetQ: 25, BudgetT: 300})
 }
